@@ -143,9 +143,22 @@ def run(ctx) -> None:
 
     _sink = ctx.rule("C07/_shared-not-owned", "(rows of the shared bookkeeping contract that C07 does not own)", floor=0)
     n0 = len(ctx.instances)
-    _rows(ctx, RVE, _sink, RVE, _sink, _sink, _sink)
+    RRK = ctx.rule(
+        "C07/renames-keep-the-watch-records-right",
+        "a rename inside the tree re-keys the renamed directory and exactly its watched descendants (prefix test with the separator) in both maps (instances shared with C02): a watch record left or put under a wrong path makes every add-watch below it fail quietly, so what is created there later is never watched and its changes go unreported while every thread stays alive",
+        floor=3,
+    )
+    _rows(ctx, RVE, RRK, RVE, _sink, _sink, _sink)
     ctx.instances[n0:] = [i for i in ctx.instances[n0:] if i.rule != _sink]
     del ctx.rules[_sink], ctx.floors[_sink]
+    RFS = ctx.rule(
+        "C07/thread-fs-calls-tolerate-vanished-paths",
+        "in the call closure of the inotify emitter thread's and reader thread's bodies, every filesystem call documented to raise for a missing path (os.fwalk for its top directory, os.scandir, os.listdir, os.stat, ...) is made inside a handler for OSError; os.walk with the default onerror is tolerant by itself (a path reported by the kernel may be gone again when the thread acts on it: an escaping OSError ends the thread and every later change goes unreported)",
+        floor=2,
+    )
+    from ..oserr import check as _fs_check
+
+    _fs_check(ctx, RFS, [("InotifyEmitter", "queue_events"), ("InotifyBuffer", "run")], "later changes in the tree are never reported although the root still exists")
     RS = ctx.rule("C07/swallow-is-local", "an absorbed add-watch failure keeps the record that triggered it (the record is appended on every path that absorbs a failure)", floor=1)
 
     # ---------------------------------------------------------------- (a) reader exception flow
@@ -614,6 +627,9 @@ IB = "observers/inotify_buffer.py"
 IN = "observers/inotify.py"
 PO = "observers/polling.py"
 VARIANTS = [
+    dict(name="B sub-created walk by os.fwalk (re-raises for a vanished top directory)", expect="fire", rule="C07/thread-fs-calls-tolerate-vanished-paths", edits=[("events.py", "    for root, directories, filenames in os.walk(src_dir_path):  # type: ignore[type-var]\n        for directory in directories:\n            full_path = os.path.join(root, directory)  # type: ignore[call-overload]\n            yield DirCreatedEvent(full_path, is_synthetic=True)", "    for root, directories, filenames, _fd in os.fwalk(src_dir_path):\n        for directory in directories:\n            full_path = os.path.join(root, directory)  # type: ignore[call-overload]\n            yield DirCreatedEvent(full_path, is_synthetic=True)")]),
+    dict(name="B emitter stats the arriving path unguarded", expect="fire", rule="C07/thread-fs-calls-tolerate-vanished-paths", edits=[(IN, "                if event.is_directory and self.watch.is_recursive:\n                    for sub_created_event in generate_sub_created_events(src_path):", "                if event.is_directory and self.watch.is_recursive and os.stat(src_path).st_nlink:\n                    for sub_created_event in generate_sub_created_events(src_path):")]),
+    dict(name="E emitter stats the arriving path inside a handler", expect="silent", edits=[(IN, "                if event.is_directory and self.watch.is_recursive:\n                    for sub_created_event in generate_sub_created_events(src_path):", "                try:\n                    os.stat(src_path)\n                except OSError:\n                    pass\n                if event.is_directory and self.watch.is_recursive:\n                    for sub_created_event in generate_sub_created_events(src_path):")]),
     dict(name="B arrival installation gives up at the first unwatchable sub-directory (pre-fix F13)", expect="fire", rule="C07/vanishing-entry-costs-only-itself", edits=[("observers/inotify_c.py", '                    try:\n                        self._add_watch(full_path, mask)\n                    except OSError as e:\n                        # One sub-directory that cannot be watched (it may just have vanished) must not leave\n                        # the others unwatched: the first failure is reported once all of them have been tried.\n                        failure = failure or e\n', "                    self._add_watch(full_path, mask)\n")]),
     dict(name="B IGNORED clean-up unguarded lookup", expect="fire", rule="C07/thread-body-exception-flow", edits=[(IC, "if self._wd_for_path.get(path) == wd:", "if self._wd_for_path[path] == wd:")]),
     dict(name="B _recursive_simulate unguarded parent lookup", expect="fire", rule="C07/thread-body-exception-flow", edits=[(IC, "                    wd_parent_dir = self._wd_for_path.get(os.path.dirname(full_path))\n                    if wd_parent_dir is None:\n                        # The parent vanished before it could be watched (its failure was suppressed above).\n                        continue\n", "                    wd_parent_dir = self._wd_for_path[os.path.dirname(full_path)]\n")]),
